@@ -8,7 +8,7 @@ EXPLANATION = ("In gix-refspec's match_group code every `start..end` range built
                "tested separately, so they may overlap) must be dominated by an ordering comparison whose admitted set, written as D >= 0 with D a linear form over symbolic lengths "
                "(len(x[a..]) = len(x) - a etc.), is exactly `end - start >= 0`: laxer and the later slice `name[start..end]` panics for items shorter than "
                "prefix+suffix, stricter and items git matches (empty `*` match) are dropped. "
-               "Explicit unwrap/expect calls reachable in match_group are enumerated and must be on the reviewed list. The key match_remotes de-duplicates on derives from the source (full name or object id) and the destination. Equality of the produced "
+               "Explicit unwrap/expect calls reachable in match_group are enumerated and must be on the reviewed list. The key match_remotes de-duplicates on derives from the source (full name or object id) and the destination. In Needle::matches only the needle's variant decides whether expand_partial_name is consulted, and that function tries refs/, refs/tags/, refs/heads/, refs/remotes/ and the /HEAD form. Equality of the produced "
                "mappings with git's is not decided.")
 REVIEWED_UNWRAPS = {
     # function suffix -> reason
